@@ -306,6 +306,22 @@ pub fn parse_file_internal(context: &ParseContext) -> Result<(), Error> {
     Ok(())
 }
 
+/// Whether the operator character at `at` is the second one of a two-character operator (the
+/// first one directly before it was counted as a binary operator: a value stands before that)
+fn second_half_of_operator(chars: &[char], at: usize) -> bool {
+    // walk back over the first character and blanks to what stands before the operator
+    let mut j = at as isize - 2;
+    while j >= 0 && chars[j as usize].is_whitespace() {
+        j -= 1;
+    }
+    j >= 0
+        && (chars[j as usize].is_alphanumeric()
+            || chars[j as usize] == '_'
+            || chars[j as usize] == ')'
+            || chars[j as usize] == '\''
+            || chars[j as usize] == '"')
+}
+
 /// Deepest nesting (parentheses and unary operators) and most binary operators one operand may
 /// hold: the grammar, the evaluator and the expression tree itself are recursive and would
 /// overflow the stack on absurdly nested or absurdly long expressions
@@ -322,6 +338,18 @@ fn nested_too_deeply(line: &str) -> bool {
     while i < chars.len() {
         let c = chars[i];
         i += 1;
+        // the second character of `<<`, `>>`, `<=`, `>=`, `==`, `!=`, `&&`, `||` belongs to the
+        // operator counted with the first one
+        if !in_string && i >= 2 && after_value == false {
+            let two = (chars[i - 2], c);
+            if matches!(
+                two,
+                ('<', '<') | ('>', '>') | ('<', '=') | ('>', '=') | ('=', '=') | ('!', '=') | ('&', '&') | ('|', '|')
+            ) && second_half_of_operator(&chars, i - 1)
+            {
+                continue;
+            }
+        }
         // a character literal such as ';' or '"' is neither a comment nor a string
         if !in_string && c == '\'' && i + 1 < chars.len() && chars[i + 1] == '\'' {
             i += 2;
